@@ -145,6 +145,7 @@ class VFS:
         self.fds = {}
         self.next_fd = 100
         self.created = []
+        self.removed = []
         self.reads = []
         self.writes = []
         self.open_count = 0
@@ -223,6 +224,18 @@ class VFS:
             raise FileNotFoundError(2, 'No such file or directory', p)
         return list(self.dirs[p])
 
+    def remove(self, p):
+        if not isinstance(p, (str, bytes)):
+            raise TypeError('remove: path should be string, bytes or os.PathLike, not %s' % type(p).__name__)
+        q = self.resolve(p)
+        if q not in self.files:
+            raise FileNotFoundError(2, 'No such file or directory', p)
+        del self.files[q]
+        d = posixpath.dirname(q)
+        if posixpath.basename(q) in self.dirs.get(d, []):
+            self.dirs[d].remove(posixpath.basename(q))
+        self.removed.append(q)
+
     def fstat(self, fd):
         f = self.fds.get(fd)
         if f is None:
@@ -253,6 +266,8 @@ class VFS:
         pm.expanduser = lambda p: p
         m.path = pm
         m.listdir = vfs.listdir
+        m.remove = vfs.remove
+        m.unlink = vfs.remove
         m.fstat = vfs.fstat
         m.stat = vfs.stat
         m.getcwd = lambda: vfs.cwd
